@@ -18,7 +18,7 @@ PROPERTY = {
                'mutations': '8 (metadata edit on a leaf / on a container, item set, append, delete, flag change, nested value edit, clear) applied to the copy or to the original (symbolic)'},
     'outside': ['trees built by hand with shared sub-nodes (aliases)', 'objects inside !call results'],
     'per_split_timeout': {'quick': 600, 'thorough': 1800},
-    'wall_budget': {'quick': 900, 'thorough': 3400},
+    'wall_budget': {'quick': 1500, 'thorough': 7000},
 }
 
 
